@@ -11,12 +11,19 @@ type RemoveIntersections struct {
 	arraysToFix     map[string]ast.Object
 	// aliases of lists being replaced by the list they stand for
 	expanding map[string]struct{}
+	// number of aliases of lists replaced so far
+	expanded *int
 }
+
+// maxExpandedLists bounds the references to aliases of lists that are replaced by
+// a copy of the list: aliases that refer to each other multiply these copies.
+const maxExpandedLists = 100000
 
 func (r RemoveIntersections) Process(schemas []*ast.Schema) ([]*ast.Schema, error) {
 	r.objectsToRemove = make(map[string]ast.Object)
 	r.arraysToFix = make(map[string]ast.Object)
 	r.expanding = make(map[string]struct{})
+	r.expanded = new(int)
 	visitor := Visitor{
 		OnSchema: r.processSchema,
 		OnObject: r.processObject,
@@ -31,6 +38,7 @@ func (r RemoveIntersections) processSchema(v *Visitor, schema *ast.Schema) (*ast
 	// must not be applied to the objects of the next one.
 	clear(r.objectsToRemove)
 	clear(r.arraysToFix)
+	clear(r.expanding)
 
 	var foundErr error
 	schema.Objects.Iterate(func(key string, value ast.Object) {
@@ -176,6 +184,11 @@ func (r RemoveIntersections) redirectReference(visitor *Visitor, schema *ast.Sch
 		}
 		r.expanding[ref.ReferredType] = struct{}{}
 		defer delete(r.expanding, ref.ReferredType)
+
+		*r.expanded++
+		if *r.expanded > maxExpandedLists {
+			return ast.Type{}, fmt.Errorf("more than %d aliases of lists to replace by the list they stand for, the last one being '%s': these lists refer to each other too many times", maxExpandedLists, ref.ReferredType)
+		}
 
 		return visitor.VisitType(schema, newType)
 	}
